@@ -100,6 +100,65 @@ pub fn ppreal(a: &[&str]) -> Option<String> {
     }
 }
 
+/// `pairreport <needle> <i1> <i2>`: every packed-pair finder of this build constructed with
+/// `with_pair` from `Pair::with_indices(needle, i1, i2)`; the value is the pair the portable
+/// finder reports, the oracle is the given pair unless some finder (portable, SIMD, or the
+/// `new` constructors against `Pair::new`) reports a different one.
+pub fn pairreport(a: &[&str]) -> Option<String> {
+    if a.len() != 3 {
+        return None;
+    }
+    use memchr::arch::all::packedpair::Pair;
+    let needle = parse_bytes(a[0])?;
+    let i1: u8 = a[1].parse().ok()?;
+    let i2: u8 = a[2].parse().ok()?;
+    crate::vreset();
+    let pair = match Pair::with_indices(&needle, i1, i2) {
+        None => return Some("ok badpair steps=0 loads=- oracle=badpair".to_string()),
+        Some(p) => p,
+    };
+    let show = |p: &Pair| format!("{},{}", p.index1(), p.index2());
+    let mut bad: Vec<String> = Vec::new();
+    let fb = memchr::arch::all::packedpair::Finder::with_pair(&needle, pair)?;
+    let value = show(fb.pair());
+    let dflt = Pair::new(&needle).map(|p| show(&p));
+    match memchr::arch::all::packedpair::Finder::new(&needle) {
+        Some(f) => {
+            if Some(show(f.pair())) != dflt {
+                bad.push(format!("all::new={}", show(f.pair())));
+            }
+        }
+        None => bad.push("all::new=none".to_string()),
+    }
+    macro_rules! isa {
+        ($name:expr, $module:path) => {{
+            use $module as m;
+            if let Some(f) = m::Finder::with_pair(&needle, pair) {
+                if (f.pair().index1(), f.pair().index2()) != (i1, i2) {
+                    bad.push(format!("{}={}", $name, show(f.pair())));
+                }
+            }
+            if let Some(f) = m::Finder::new(&needle) {
+                if Some(show(f.pair())) != dflt {
+                    bad.push(format!("{}::new={}", $name, show(f.pair())));
+                }
+            }
+        }};
+    }
+    #[cfg(memchr_verif_emu_neon)]
+    isa!("neon", memchr::arch::aarch64::neon::packedpair);
+    #[cfg(memchr_verif_emu_simd128)]
+    isa!("simd128", memchr::arch::wasm32::simd128::packedpair);
+    #[cfg(not(any(memchr_verif_emu_neon, memchr_verif_emu_simd128)))]
+    {
+        isa!("sse2", memchr::arch::x86_64::sse2::packedpair);
+        isa!("avx2", memchr::arch::x86_64::avx2::packedpair);
+    }
+    let _ = verif::take();
+    let oracle = if bad.is_empty() { format!("{},{}", i1, i2) } else { format!("MISREPORT:{}", bad.join("/")) };
+    Some(format!("ok {} steps=0 loads=- oracle={}", value, oracle))
+}
+
 pub fn hex(b: &[u8]) -> String {
     if b.is_empty() {
         return "-".to_string();
